@@ -143,7 +143,7 @@ func dropEmptyKeys(o [][2]string) [][2]string {
 	return out
 }
 
-var byteFaults = []string{"bitflip", "bitflip", "rewrite", "mapping_slack", "mapping_slack", "cert_slack", "cert_slack", "peer_slack", "element_smuggle", "element_smuggle", "after_sig", "sig_swap", "key_subst", "replay", "revocation_key_forgery"}
+var byteFaults = []string{"bitflip", "bitflip", "rewrite", "mapping_slack", "mapping_slack", "cert_slack", "cert_slack", "peer_slack", "element_smuggle", "element_smuggle", "type_confusion", "type_confusion", "flag_downgrade", "after_sig", "sig_swap", "key_subst", "replay", "revocation_key_forgery"}
 var shapeFaults = []string{"offline_forgery", "offline_forgery", "offline_transplant", "store_confusion"}
 
 func (World) Generate(r *engine.RNG, tier string) *engine.Script {
@@ -490,6 +490,83 @@ func applyByteFault(m *message, f *engine.Fault, recorded []*message) bool {
 		if nf.SigStart >= pos {
 			nf.SigStart += len(elem)
 		}
+		m.frame = &nf
+		return true
+	case "type_confusion":
+		// a signature-type code is replaced by another code whose keys and
+		// signatures have the same sizes (7 <-> 11 <-> 8): in the identity's key
+		// certificate, in the EncryptedLeaseSet sig_type field, or in the
+		// offline block's transient type. Nothing shifts; only the meaning does.
+		var spots [][2]int // offset of a 2-byte type code
+		for _, fl := range fr.Fields {
+			switch {
+			case fl.Name == "cert_payload" && fl.End-fl.Start >= 4 && fl.Start > 0 && raw[fl.Start-3] == 5:
+				spots = append(spots, [2]int{fl.Start, 0})
+			case fl.Name == "sigtype" && m.kind == "els":
+				spots = append(spots, [2]int{fl.Start, 0})
+			case fl.Name == "off_sigtype":
+				spots = append(spots, [2]int{fl.Start, 0})
+			}
+		}
+		if len(spots) == 0 {
+			return false
+		}
+		at := spots[int(f.N[0])%len(spots)][0]
+		if at+2 > len(raw) {
+			return false
+		}
+		cur := int(binary.BigEndian.Uint16(raw[at : at+2]))
+		var alt []int
+		switch cur {
+		case 7:
+			alt = []int{11, 8}
+		case 11:
+			alt = []int{7, 8}
+		case 8:
+			alt = []int{7, 11}
+		case 1:
+			alt = []int{7} // P-256: same 64-byte signature, other key size (shifts the key offset only)
+		default:
+			return false
+		}
+		binary.BigEndian.PutUint16(raw[at:at+2], uint16(alt[int(f.N[1])%len(alt)]))
+		return true
+	case "flag_downgrade":
+		// the OFFLINE_KEYS flag is cleared and the offline block cut out: the
+		// body is still signed by the transient key only
+		if fr.OffEnd <= fr.OffStart || fr.OffEnd > len(raw) {
+			return false
+		}
+		var flagsAt = -1
+		for _, fl := range fr.Fields {
+			if fl.Name == "flags" {
+				flagsAt = fl.Start
+			}
+		}
+		if flagsAt < 0 || flagsAt+2 > len(raw) {
+			return false
+		}
+		raw[flagsAt+1] &^= 1
+		n := fr.OffEnd - fr.OffStart
+		out := append([]byte(nil), raw[:fr.OffStart]...)
+		out = append(out, raw[fr.OffEnd:]...)
+		m.raw = out
+		nf := *fr
+		nf.Fields = nil
+		for _, fl := range fr.Fields {
+			switch {
+			case fl.Start >= fr.OffEnd:
+				fl.Start -= n
+				fl.End -= n
+				nf.Fields = append(nf.Fields, fl)
+			case fl.End <= fr.OffStart:
+				nf.Fields = append(nf.Fields, fl)
+			}
+		}
+		if nf.SigStart >= fr.OffEnd {
+			nf.SigStart -= n
+		}
+		nf.OffStart, nf.OffEnd = 0, 0
 		m.frame = &nf
 		return true
 	case "peer_slack":
